@@ -326,7 +326,7 @@ func c13Run(t *rapid.T) {
 				continue
 			}
 		}
-		p := genProgram(t, genOpts{probes: true, mapRegions: true, pureMapBody: true, sideEffects: true, failing: true, failPct: 20, probePct: 20, maxPieces: 5, brokenPct: brokenPct, brokenKinds: brokenKinds, litModePct: 15})
+		p := genProgram(t, genOpts{tolerant: true, toleratedOnly: true, lateLet: true, probes: true, mapRegions: true, pureMapBody: true, sideEffects: true, failing: true, failPct: 20, probePct: 20, maxPieces: 5, brokenPct: brokenPct, brokenKinds: brokenKinds, litModePct: 15})
 		progs = append(progs, c13Prog{p: p, text: p.Main})
 	}
 	// partial names are unique per program because fresh() counters restart:
@@ -399,6 +399,8 @@ func c13Run(t *rapid.T) {
 	defer func() { c13Execs += 1 + execsThisCase }()
 	execsThisCase = 0
 
+	sharedHelpers := make([]map[string]interface{}, nprog)
+	sharedRT := make([]*Runtime, nprog)
 	var hist []string
 	var live []*liveTmpl
 	cacheOn := false
@@ -596,6 +598,20 @@ func c13Run(t *rapid.T) {
 			}
 		case 11:
 			hist = append(hist, fmt.Sprintf("BuffaloRenderer(prog %d, data %d) [cache %v]", i, j, cacheOn))
+			if uni(t, "longlivedhelpers", 2) == 0 {
+				// the way buffalo calls it: ONE helpers map for the life of the application, fresh data per request
+				if sharedHelpers[i] == nil {
+					sharedRT[i] = newRT(i, j)
+					sharedHelpers[i] = sharedRT[i].helperData()
+				}
+				rt := sharedRT[i]
+				rt.Variant, rt.Log = j, nil
+				hist[len(hist)-1] += " with the long-lived helpers map of this program"
+				out, err := safeBuffalo(progs[i].text, rt.plainData(), sharedHelpers[i])
+				compare(i, j, "BuffaloRenderer", out, err, rt)
+				count("c13_op_buffalo_long_lived_helpers", 1)
+				break
+			}
 			rt := newRT(i, j)
 			out, err := safeBuffalo(progs[i].text, rt.plainData(), rt.helperData())
 			compare(i, j, "BuffaloRenderer", out, err, rt)
